@@ -322,6 +322,10 @@ func extract(repo string, it Item) (sourceTxt, lean string, err error) {
 		return "", "", fmt.Errorf("const %s not found", parts[1])
 	}
 
+	if it.Sel == "lockpairs" {
+		t := lockPairs(f)
+		return fmt.Sprintf("%d acquisitions", strings.Count(t, "\n(")+map[bool]int{true: 0, false: 1}[t == "[]"]), t, nil
+	}
 	if it.Sel == "locks" {
 		t := locksOf(f)
 		return fmt.Sprintf("%d methods", strings.Count(t, "\n(")+1), t, nil
